@@ -423,9 +423,9 @@ class AbiAnalysis:
                             if key in m:
                                 inherited |= pv.get(m[key]["top"], frozenset())
             for x in defs:
-                if x["top"] in GPR and x["top"] != "rsp":
+                if (x["top"] in GPR and x["top"] != "rsp") or x["top"].startswith(("xmm", "ymm", "zmm")):
                     if inherited:
-                        pv[x["top"]] = inherited
+                        pv[x["top"]] = inherited            # also through a vector register used to park a pointer
                     else:
                         pv.pop(x["top"], None)
         # which arguments does the kernel look at?  (syntactic: any read of a register that may still hold the argument)
